@@ -343,14 +343,22 @@ def run(ctx):
         ctx.hist(f"wire:packets={max(len(v) for v in [[m for t2, m in res['sends'] if t2 == t] for t, _ in res['sends']] or [[1]])}")
     # the pacing of a lookup's queries (first QU unless forced, later QM, one second apart after the second): the real async_request loop
     from props import c18
-    for _ in range(80 if quick else 1500):
-        sc = c18.gen_scenario(rng)
-        sc['pre'] = [p for p in sc['pre'] if all(r['kind'] != 'KAddress' for r in p[1])]     # keep the lookup busy: no cached addresses
-        sc['timeout'] = rng.choice([1000, 3000, 10000])
+    from props.c05 import unjson
+    import os
+    corpus_sc = unjson(json.load(open(os.path.join(common.VERIF, 'corpus', 'c13_lookup_third_query.json'))))
+    for k in ('pre', 'during'):
+        corpus_sc[k] = [tuple(d) for d in corpus_sc[k]]
+    for i in range(1 + (80 if quick else 1500)):
+        if i == 0:
+            sc = corpus_sc                # the recorded finding C13-lookup-third-query-early
+        else:
+            sc = c18.gen_scenario(rng)
+            sc['pre'] = [p for p in sc['pre'] if all(r['kind'] != 'KAddress' for r in p[1])]     # keep the lookup busy: no cached addresses
+            sc['timeout'] = rng.choice([1000, 3000, 10000])
         res = c18.run_scenario(sc)
-        why = c18.oracle_questions(sc, res) if not res['escaped'] else f"exception in the event loop: {res['escaped'][0]}"
+        why, tags = c18.oracle_questions(sc, res, spacing=True) if not res['escaped'] else (f"exception in the event loop: {res['escaped'][0]}", set())
         if why:
-            fails.append(({'lookup_scenario': sc}, why))
+            fails.append(({'lookup_scenario': sc}, why, tags))
         ctx.count(('l', repr(sc)), nontrivial=True)
         ctx.hist(f"lookup-queries:{min(len(res['sends']), 6)}")
     ctx.sample(jsonable({k: v for k, v in coq_cases[0][2].items()}))
@@ -358,8 +366,9 @@ def run(ctx):
                        "known answers, forced or free question type, browser queries (1-2 types) and lookup queries: questions, QU bits, known-answer sets with their stamps, "
                        "bucketing and the history afterwards compared with the model; responder-side history after async_response; (2) on the wire: two browsers of one instance "
                        "started 0/998/999/1000 ms apart over 0-150 cached pointers: number of queries, known answers, TC flags. distinct = distinct cases")
-    for case, why in fails[:3]:
-        ctx.violation({'kind': 'oracle', 'why': why, 'case': jsonable(case), 'broken': None if ok else ctx.build_msg})
+    for f in fails[:6]:
+        case, why, tags = f if len(f) == 3 else (f[0], f[1], ())
+        ctx.violation({'kind': 'oracle', 'why': why, 'case': jsonable(case), 'broken': None if ok else ctx.build_msg}, tags=tags)
     if not ok:
         if not ctx.violations:
             ctx.violation({'kind': 'broken-obligation', 'broken': ctx.build_msg}, no_input=True)
